@@ -4,10 +4,11 @@ import (
 	"encoding/json"
 	"fmt"
 	"os"
-	"strings"
 	"runtime"
 	"runtime/debug"
+	"runtime/metrics"
 	"sort"
+	"strings"
 	"testing"
 	"time"
 
@@ -29,23 +30,23 @@ type RunSpec struct {
 }
 
 type RunResult struct {
-	Spec     RunSpec
-	Viol     []Violation
-	Notes    []Violation // trips of monitors owned by other properties
-	Steps    int
-	SimTime  time.Duration
-	Faults   map[string]int
-	Probes   map[string]int
-	Hash     uint64
-	ActHash  uint64
-	Tape     []uint32
-	Labels   []string
-	Inconcl  string
-	States   map[uint64]struct{}
-	Text     []string
-	Summary  string
-	Sweep    int // for enumerating families: size of the sweep dimension discovered by this run
-	Touched  bool
+	Spec    RunSpec
+	Viol    []Violation
+	Notes   []Violation // trips of monitors owned by other properties
+	Steps   int
+	SimTime time.Duration
+	Faults  map[string]int
+	Probes  map[string]int
+	Hash    uint64
+	ActHash uint64
+	Tape    []uint32
+	Labels  []string
+	Inconcl string
+	States  map[uint64]struct{}
+	Text    []string
+	Summary string
+	Sweep   int // for enumerating families: size of the sweep dimension discovered by this run
+	Touched bool
 	// Faultless: the family has no fault dimension; a run is non-trivial
 	// when Touched alone
 	Faultless bool
@@ -59,9 +60,11 @@ type Family struct {
 	// Param 1..res.Sweep (complete single-fault enumeration relative to
 	// the base run)
 	Sweep bool
-	Run  func(w *World, spec *RunSpec, res *RunResult)
+	Run   func(w *World, spec *RunSpec, res *RunResult)
 	// Weight in the random swarm (0: only used by sweeps)
 	Weight int
+	// ThoroughOnly families run in the thorough tier only
+	ThoroughOnly bool
 }
 
 var registry = map[string][]Family{}
@@ -150,12 +153,20 @@ func gcOff() {
 	}
 }
 
+var heapSample = []metrics.Sample{{Name: "/memory/classes/heap/objects:bytes"}}
+
 func gcBetweenRuns() {
 	runsSinceGC++
-	if runsSinceGC >= 32 {
-		runsSinceGC = 0
-		runtime.GC()
+	if runsSinceGC < 32 {
+		// runs with multi-megabyte payloads: collect as soon as the
+		// live heap is large (cheap to sample)
+		metrics.Read(heapSample)
+		if heapSample[0].Value.Kind() != metrics.KindUint64 || heapSample[0].Value.Uint64() < 256<<20 {
+			return
+		}
 	}
+	runsSinceGC = 0
+	runtime.GC()
 }
 
 // ---- the flow runner ----
@@ -364,7 +375,7 @@ func (m *monC01) Step(f *Flow) {
 	if m.checkedA == nil {
 		m.checkedA, m.checkedC = map[int]bool{}, map[int]bool{}
 	}
-	for _, pb := range f.Pubs {
+	for _, pb := range f.Active {
 		if (pb.ExClosed || pb.Deleted) && !m.checkedA[pb.Idx] {
 			m.checkedA[pb.Idx] = true
 			if !pb.Accepted() && pb.Ret != 0 {
@@ -777,6 +788,25 @@ func init() {
 		o.PerPub = 2 + f.W.Tape.Draw("perpub17w", 6)
 		o.Budget = 2
 	}, "pending_range_straddles_wrap")})
+	register("C17", Family{Name: "long-wrap", Weight: 1, ThoroughOnly: true, Run: flowFamily(func(f *Flow) {
+		// crosses the 14-bit identifier space for real: more than 16,384
+		// publishes of one level through a small window
+		o := &f.O
+		o.Publishers = 1
+		o.PerPub = 16500 + f.W.Tape.Draw("longwrap-extra", 400)
+		o.Q2 = []int{0, 1000}[f.W.Tape.Draw("longwrap-level", 2)]
+		o.ALOMax, o.EOMax = 4, 4
+		o.BigPayload = 0
+		o.Net = NetOpts{Pipe: o.Net.Pipe}
+		o.Disk = DiskOpts{}
+		o.BreakW = 1
+		o.Budget = 6
+		o.Requesters, o.Inbound = 0, 0
+		o.PauseTimeout = 250 * time.Millisecond
+		o.RWMin, o.RWMax = 10*time.Millisecond, time.Second
+		f.W.MaxSteps = 6000000
+		f.RetryErrMax = true
+	}, "identifier_wrapped")})
 	register("C02", Family{Name: "wrap", Weight: 1, Run: flowFamily(func(f *Flow) {
 		o := &f.O
 		o.Constructed = true
